@@ -90,3 +90,56 @@ func VerifC13Concurrent(preemptions int) {
 	sameBA := got == wantBA && a.result == a2.result && b.result == b2.result
 	verifrt.Assert(sameAB || sameBA, "concurrent operations on a thread-safe set give the answers of one of their sequential orders")
 }
+
+// VerifC13Bulk: in-place or/and/and-not/xor between a receiver and an operand of `size`
+// members (native or thread-safe wrapped, 64 bit), with concrete values spread over three
+// 2^32 buckets and half of the operand also in the receiver: the cardinality and the
+// membership of every value of either set equal the set operation. Sizes around internal
+// batch and container thresholds (4096, 4097, 8193) are the point of this harness.
+func VerifC13Bulk(size int) {
+	receiverSize := 10
+	mk := func(n, offset int) []uint64 {
+		out := make([]uint64, n)
+		for i := range out {
+			out[i] = uint64(i%3)<<32 | uint64(3*i+offset)
+		}
+		return out
+	}
+	a, b := mk(receiverSize, 0), mk(size, 0)
+	for i := 1; i < len(b); i += 2 {
+		b[i] += 1 // every other operand value is not in the receiver's progression
+	}
+	A, B := NewBitmap64(), NewBitmap64()
+	A.Add(a...)
+	B.Add(b...)
+	var receiver, operand Duplex[uint64] = A, B
+	if verifrt.NondetChoice("receiver wrapped", 2) == 1 {
+		receiver = ThreadSafeDuplex(receiver)
+	}
+	if verifrt.NondetChoice("operand wrapped", 2) == 1 {
+		operand = ThreadSafeDuplex(operand)
+	}
+	op := verifrt.NondetChoice("op", 4)
+	inA, inB := map[uint64]bool{}, map[uint64]bool{}
+	for _, v := range a {
+		inA[v] = true
+	}
+	for _, v := range b {
+		inB[v] = true
+	}
+	verifApply(op, receiver, operand)
+	want := 0
+	for _, v := range append(append([]uint64{}, a...), b...) {
+		expected := verifSpec(op, inA[v], inB[v])
+		verifrt.Assert(receiver.Contains(v) == expected, "membership after in-place or/and/and-not/xor equals the set operation")
+	}
+	seen := map[uint64]bool{}
+	for _, v := range append(append([]uint64{}, a...), b...) {
+		if !seen[v] && verifSpec(op, inA[v], inB[v]) {
+			want++
+		}
+		seen[v] = true
+	}
+	verifrt.Assert(receiver.Cardinality() == uint64(want), "cardinality after the operation equals the size of the result set")
+	verifrt.Assert(operand.Cardinality() == uint64(len(inB)), "operand is unchanged by the operation")
+}
